@@ -446,7 +446,7 @@ impl<C: CellType> OptRebuild<'_, C> {
         for (var, calc) in calcs {
             // Special check to avoid overly large expressions.
             if calc.as_ref().op_count() < 32 {
-                if let Some(calc) = self.eval_written(calc) {
+                if let Some(calc) = self.eval_written(calc).filter(|c| c.op_count() < 32) {
                     knowns.push((var, OptWrite::Known(calc)));
                 } else {
                     knowns.push((var, OptWrite::Unknown));
